@@ -598,6 +598,12 @@ def _orientation_case(ctx, spec, s):
         if out.startswith('err:') or not cm.allclose(s.transform.ravel(), cm.unfrs(out), 0, 1e-14):
             ctx.disagree('find_transform', f'transform from ξ_uvw={spec["xi_uvw"]}, slip_hkl={spec["slip_hkl"]}, '
                          f'm={spec["m"]}, n={spec["n"]} differs from the model', rep)
+        # the stand-alone utility must give the same matrix
+        T2 = am.defect.dislocation_system_transform(spec['xi_uvw'], spec['slip_hkl'], m=m, n=n, box=box)
+        ctx.stats.case('dislocation_system_transform', (tuple(m), tuple(n), tuple(spec['xi_uvw']), tuple(spec['slip_hkl']), str(spec['box'])))
+        if out.startswith('err:') or not cm.allclose(np.asarray(T2).ravel(), cm.unfrs(out), 0, 1e-14):
+            ctx.disagree('dislocation_system_transform', f'dislocation_system_transform(ξ_uvw={spec["xi_uvw"]}, slip_hkl='
+                         f'{spec["slip_hkl"]}, m={spec["m"]}, n={spec["n"]}) differs from the model', rep)
         # the transform must take the slip-plane normal to n and the line direction to m x n (exact check)
         Tq = [[F(float(v)) for v in r] for r in s.transform]
         for nm, src, dst in (('n', n_axis, n), ('ξ', xi_axis, np.cross(m, n))):
@@ -1039,6 +1045,17 @@ def _clauses(ctx, spec, s, rng, kind):
         if not (abs(s.K_coeff - kc) <= 1e-12 * kmax and abs(s.preln - kc * b.dot(b) / (4 * math.pi)) <= 1e-12 * kmax * bn * bn
                 and s.K_coeff > 0):
             ctx.violate('K:coeff', f'K_coeff {s.K_coeff}, preln {s.preln} are not b.K.b/b.b and b.K.b/4pi', rep0)
+    # ---- K is the traction coefficient of the slip plane: sigma(X m) . n = K b / (2 pi X) ----------------------
+    if not np.iscomplexobj(K):
+        beff = b if kind == 'stroh' else b.dot(s.m) * s.m + b.dot(s.ξ) * s.ξ
+        for X in (1.0, 0.25, 7.0):
+            tr = s.stress(X * s.m + 0.5 * s.ξ).dot(s.n)
+            want = K.dot(beff) / (2 * math.pi * X)
+            ctx.stats.case('oracle:traction', (kind, X, str(spec['cij']), str(spec['m']), str(spec['n']), tuple(b)))
+            if np.iscomplexobj(tr) or float(np.abs(tr - want).max()) > 1e-7 * float(np.abs(K).max()) * bn / X:
+                ctx.violate(f'{kind}:K-traction', f'{kind}: traction on the slip plane at distance {X} ahead of the line is '
+                            f'{np.asarray(tr).tolist()}, K.b/(2 pi X) = {want.tolist()}', dict(rep0, X=X))
+                break
     # ---- field points ---------------------------------------------------------------------
     for it in range(3):
         r = rng.choice([1.0, 0.03125, 8.0, 50.0, 1.0])
@@ -1233,6 +1250,19 @@ def _search_refusals(ctx, rng, k):
         if want is None:
             continue
         got = {w: _outcome(spec, w) for w in ('stroh', 'auto')}
+        # the stand-alone utility has the same contract (its unit/perpendicular tests carry numpy's default rtol 1e-5,
+        # so only deviations of 1e-3 and more are demanded to be refused)
+        big = abs(spec.get('factor', 1.0) - 1.0) >= 1e-3 or abs(spec.get('angle', 0.0)) >= 1e-3
+        if spec['malformed'] in ('m-norm', 'n-norm', 'angle') and (want == 'accept' or big):
+            import atomman as am
+            mm_, nn_ = mn_vectors(spec)
+            try:
+                am.defect.dislocation_system_transform([1, -1, 0], [1, 1, 1], m=mm_, n=nn_)
+                got['dislocation_system_transform'] = 'ok'
+            except AssertionError:
+                got['dislocation_system_transform'] = 'err:assert'
+            except Exception as e:  # noqa
+                got['dislocation_system_transform'] = f'raised {type(e).__name__}: {e}'
         ctx.stats.case('oracle:refusal', (spec['malformed'], str(spec['m']), str(spec['n']), str(spec['transform'])),
                        sample={'op': 'malformed orientation (exact oracle)', 'kind': spec['malformed'], 'expected': want, 'got': got})
         rep = {'op': 'refusal', 'spec': spec, 'expected': want}
@@ -1341,9 +1371,22 @@ def _orientation_oracle(ctx, spec, s):
             nr = math.sqrt(float(sum(v * v for v in row)))
             if any(abs(float(row[c]) / nr - T[i][c]) > 1e-12 for c in range(3)):
                 ctx.violate('orientation:axes', f'row {i} of the stored transform is not the normalised axis {ax[i].tolist()}', rep)
+    import atomman as am
+    if spec['route'] == 'miller':
+        box = am.Box() if spec['box'] is None else am.Box(vects=np.array(spec['box'], dtype=float))
+        T2 = am.defect.dislocation_system_transform(spec['xi_uvw'], spec['slip_hkl'], m=m, n=n, box=box)
+        if float(np.abs(np.asarray(T2) - T).max()) > 1e-13:
+            ctx.violate('orientation:utility', 'dislocation_system_transform gives a different matrix than the solver stores: '
+                        f'{np.asarray(T2).tolist()} vs {T.tolist()}', rep)
+    # character angle: cos(angle) |b| = b . ξ
+    ang = s.characterangle()
+    bq = s.burgers
+    bnorm = float(np.linalg.norm(bq))
+    if abs(math.cos(math.radians(ang)) * bnorm - float(bq.dot(s.ξ))) > 1e-9 * bnorm or not (0.0 <= ang <= 180.0) \
+            or abs(s.characterangle(unit='radian') - math.radians(ang)) > 1e-12:
+        ctx.violate('characterangle', f'characterangle {ang} is not the angle between b = {bq.tolist()} and ξ = {s.ξ.tolist()}', rep)
     # C and b in the solver frame
     C0 = np.array(spec['cij'], dtype=float)
-    import atomman as am
     C4 = am.ElasticConstants(Cij=C0).Cijkl
     want = np.einsum('ig,jh,km,ln,ghmn->ijkl', T, T, T, T, C4)
     if float(np.abs(s.C.Cijkl - want).max()) > 3 * spec['tol'] * float(np.abs(want).max()):
@@ -1433,7 +1476,7 @@ THEOREMS = [
     'C12.burgers_closure', 'C12.disp_continuous_off_cut', 'C12.disp_continuous_off_cut_analytic',
     'C12.burgers_jump_limit',
     # energy-coefficient tensor
-    'C12.K_symm', 'C12.kOf_conj', 'C12.K_real_partial',
+    'C12.K_symm', 'C12.kOf_conj', 'C12.K_real_partial', 'C12.traction_coef', 'C12.K_is_traction', 'C12.iso_K_is_traction',
     # covariance under rotating the whole problem, independence of the eigen-solver's normalisation
     'C12.eigen_covariant', 'C12.inverse_covariant', 'C12.fields_covariant', 'C12.K_covariant', 'C12.scale_invariant',
     # isotropic closed form (generated definitions)
